@@ -7,15 +7,16 @@ rnd = sys.argv[2] if len(sys.argv) > 2 else '1'
 round2 = rnd == '2'
 round3 = rnd == '3'
 round4 = rnd == '4'
-wt = f'/tmp/wt/{pid}' + {'1': '', '2': 'b', '3': 'c', '4': 'd'}[rnd]
-out = {'1': f'/tmp/mut/{pid}', '2': f'/tmp/mut2/{pid}', '3': f'/tmp/mut3/{pid}', '4': f'/tmp/mut4/{pid}'}[rnd]
+round5 = rnd == '5'
+wt = f'/tmp/wt/{pid}' + {'1': '', '2': 'b', '3': 'c', '4': 'd', '5': 'e'}[rnd]
+out = {'1': f'/tmp/mut/{pid}', '2': f'/tmp/mut2/{pid}', '3': f'/tmp/mut3/{pid}', '4': f'/tmp/mut4/{pid}', '5': f'/tmp/mut5/{pid}'}[rnd]
 for l in open('/verif/properties.jsonl'):
     p = json.loads(l)
     if p['id'] == pid:
         break
 else:
     sys.exit("no such property")
-extra = (" Stay away from the single most obvious line for this property: look at helper functions, less-travelled branches and error paths, the secondary implementations of the same behaviour (generated code checked into the repository, the reflection-based codec, client side versus server side, signature-driven readers), state that two functions must keep consistent, and clean-up / shutdown paths. At least one of the three should involve code that is NOT in the file a reader would open first for this property." if round2 else (" For this round, prefer changes of these kinds: (1) a change that is correct on its own but breaks an assumption another function relies on (state that two functions must keep consistent, a value computed in one place and checked in another); (2) a change in a clean-up, shutdown, error or retry path; (3) a change in a secondary implementation of the same behaviour (code generated and checked into the repository, the reflection-based codec, the client side when the server side is the obvious place, a helper package). Avoid one-token operator flips in the central function of the property: make the three changes look like refactorings, optimisations or hardening that a reviewer would approve." if round3 else (" For this round, prefer changes that ADD something rather than alter what is there: a fast path, a cache or memo, an early return for a 'trivial' case, a retry, an extra goroutine or buffered hand-off, a pooled or reused buffer, a fallback branch, a new default in a constructor, a second call site of an internal function that skips what the first call site does before it — so that the existing code is untouched and still looks right, but can now be bypassed or run in a state it was not written for. Also consider changes made by following the data flow of the property away from its central function: callers, adapters, constructors and their defaults, constants and limits, files checked in that were produced by the project's generators (edit the generated .go file directly), and the less-used transports / codecs / front ends. Make each change look like an optimisation, a robustness improvement or a convenience a reviewer would approve." if round4 else "")))
+extra = (" Stay away from the single most obvious line for this property: look at helper functions, less-travelled branches and error paths, the secondary implementations of the same behaviour (generated code checked into the repository, the reflection-based codec, client side versus server side, signature-driven readers), state that two functions must keep consistent, and clean-up / shutdown paths. At least one of the three should involve code that is NOT in the file a reader would open first for this property." if round2 else (" For this round, prefer changes of these kinds: (1) a change that is correct on its own but breaks an assumption another function relies on (state that two functions must keep consistent, a value computed in one place and checked in another); (2) a change in a clean-up, shutdown, error or retry path; (3) a change in a secondary implementation of the same behaviour (code generated and checked into the repository, the reflection-based codec, the client side when the server side is the obvious place, a helper package). Avoid one-token operator flips in the central function of the property: make the three changes look like refactorings, optimisations or hardening that a reviewer would approve." if round3 else (" For this round, prefer changes that ADD something rather than alter what is there: a fast path, a cache or memo, an early return for a 'trivial' case, a retry, an extra goroutine or buffered hand-off, a pooled or reused buffer, a fallback branch, a new default in a constructor, a second call site of an internal function that skips what the first call site does before it — so that the existing code is untouched and still looks right, but can now be bypassed or run in a state it was not written for. Also consider changes made by following the data flow of the property away from its central function: callers, adapters, constructors and their defaults, constants and limits, files checked in that were produced by the project's generators (edit the generated .go file directly), and the less-used transports / codecs / front ends. Make each change look like an optimisation, a robustness improvement or a convenience a reviewer would approve." if round4 else (" For this round, prefer changes of these kinds: (1) TWO COOPERATING SITES: a change made of two small edits in different functions (or files) that each look fine alone — e.g. one function stops establishing something (a check, a copy, a lock, an ordering, an initial value) because 'the other side does it', and the other side is changed or already differs; (2) REORDERING: moving an existing statement across a lock/unlock, a goroutine start, a channel operation, a registration, a write to the wire or an error check, without adding or deleting anything; (3) ALIASING AND LIFETIME: handing out, storing or reusing a slice, map, buffer, message or pointer that is still owned or later modified by someone else (no copy where one is needed, a copy where identity is needed, a value captured by a closure or goroutine that changes afterwards); (4) BOUNDARIES AND WIDTHS: a limit, count, index or identifier that goes wrong only at an extreme (zero, exactly the limit, wrap-around of a counter, the 2^31/2^32 edge, an empty list or map, the first or last slot). Avoid one-token operator flips in the central function of the property and avoid plainly deleting a check; every change must leave the code looking like a reasonable clean-up, simplification or performance improvement that a reviewer would approve." if round5 else ""))))
 print(f"""You are helping test a verification effort on an open-source Go project, lugu/qiloop (a Go implementation of SoftBank's QiMessaging RPC protocol: wire format, type-signature codec, IDL parser and proxy/stub generator, client/server bus, service directory).
 
 Your own scratch git worktree of the project is at {wt} (detached HEAD of the project's current commit). Work ONLY inside {wt} and write your results to {out}/. Do NOT read or touch /repo, /verif, /root/.vp or other directories under /tmp/wt or /tmp/mut: your work must be independent.
